@@ -101,3 +101,94 @@ pub fn replay_anim_line(tally: &mut Tally, lineno: usize, line: &Value, scales: 
         }
     }
 }
+
+// ---------------------------------------------------------------------------------------------
+// Leg B: random configurations, random histories, logged for Trace_Animator.
+
+fn rand_cfg(rng: &mut crate::ts::Rng) -> Value {
+    let nk = 1 + rng.below(3);
+    let mut positions: Vec<i64> = vec![];
+    while (positions.len() as u64) < nk { let p = rng.below(9) as i64; if !positions.contains(&p) { positions.push(p); } }
+    let kfs: Vec<Value> = positions.iter().map(|&p| {
+        let d: Vec<Value> = (0..4).map(|i| if rng.below(5) < 2 { json!([]) } else { json!([(rng.below(121) as i64 - 20) * if i < 2 { 1 } else { 2 }]) }).collect();
+        let e = if rng.below(4) == 0 { [1i64, 2, 3, 4, 5, 11, 14, 19, 23, 27, 30, 33, 36, 37, 38][rng.below(15) as usize] } else { 0 };
+        json!({"pos": p, "d": d, "e": e})
+    }).collect();
+    let de = [1i64, 1, 2, 3, 12, 16, 22, 25, 38][rng.below(9) as usize];
+    let del = if rng.below(3) == 0 { rng.below(6) as i64 } else { 0 };
+    let rep = [-1i64, -1, 0, 1, 2, -2][rng.below(6) as usize];
+    json!({"kfs": kfs, "de": de, "tm": {"cyc": 1 + rng.below(16) as i64, "del": del, "rep": rep, "rev": rng.below(3) == 0}})
+}
+
+pub fn drive_anim(seed: u64, nworlds: usize, nops: usize, out: &str) -> Value {
+    use std::io::Write;
+    let mut rng = crate::ts::Rng(seed.wrapping_mul(0x9E3779B97F4A7C15) | 1);
+    let mut f = std::io::BufWriter::new(std::fs::File::create(out).unwrap());
+    let (mut events, mut sets) = (0u64, 0u64);
+    let mut sample = vec![];
+    for _ in 0..nworlds {
+        let tls: Vec<Value> = (0..4).map(|_| match rng.below(20) { 0..=6 => json!([]), 7..=15 => json!([rand_cfg(&mut rng)]), _ => json!([rand_cfg(&mut rng), rand_cfg(&mut rng)]) }).collect();
+        let v0 = vec![rng.below(50) as i64 - 10, rng.below(50) as i64, rng.below(100) as i64 - 50, rng.below(100) as i64];
+        let s0 = 1 + rng.below(4);
+        let cfg = json!({"ev": "cfg", "pd": 8, "np": 4, "tls": tls, "s0": s0, "v0": v0});
+        writeln!(f, "{}", cfg).unwrap();
+        let mut a = build_anim(&cfg, -3);
+        let obs = |a: &Anim| { let (sd, pa) = a.verif_snapshot();
+            (st_no(a.current_state()), a.is_ended() as i64, (sd * 8.0).round() as i64, match pa { None => json!([]), Some((s, d)) => json!([st_no(&s), (d * 8.0).round() as i64]) }) };
+        for _ in 0..nops {
+            let rec = if rng.below(5) < 3 {
+                let dt = [0i64, 1, 1, 2, 3, 5, 8, 13, 40][rng.below(9) as usize];
+                a.advance(dt as f32 * 0.125);
+                let (s, e, t, p) = obs(&a);
+                json!({"ev": "adv", "dt": dt, "st": s, "ended": e, "ticks": t, "paused": p, "vb": a.current_values().bits()})
+            } else {
+                let to = 1 + rng.below(4) as i64;
+                let before = a.current_values().bits();
+                a.set_state(&st(to));
+                let (s, e, t, p) = obs(&a);
+                sets += 1;
+                json!({"ev": "set", "to": to, "st": s, "ended": e, "ticks": t, "paused": p, "before": before, "after": a.current_values().bits(), "vb": a.current_values().bits()})
+            };
+            if sample.len() < 3 && events % 11 == 5 { sample.push(json!({"cfg": cfg, "event": rec})); }
+            writeln!(f, "{}", rec).unwrap();
+            events += 1;
+        }
+    }
+    f.flush().unwrap();
+    json!({"worlds": nworlds, "events": events, "set_state_calls": sets, "samples": sample})
+}
+
+/// Compares the logged current_values with the value terms predicted by Trace_Animator (PRED lines).
+pub fn judge_anim(trace: &str, preds: &str) -> Value {
+    use std::io::BufRead;
+    let mut worlds: Vec<Vec<Value>> = vec![];
+    for l in std::io::BufReader::new(std::fs::File::open(trace).unwrap()).lines() {
+        let r: Value = serde_json::from_str(&l.unwrap()).unwrap();
+        if r["ev"] == "cfg" { worlds.push(vec![r]); } else { worlds.last_mut().unwrap().push(r); }
+    }
+    let mut by_world: std::collections::BTreeMap<u64, Value> = Default::default();
+    for l in std::io::BufReader::new(std::fs::File::open(preds).unwrap()).lines() {
+        let l = l.unwrap();
+        if let Some(rest) = l.trim().strip_prefix("<<\"PRED\", ") {
+            let inner: String = serde_json::from_str(rest.strip_suffix(">>").unwrap()).unwrap();
+            let v: Value = serde_json::from_str(&inner).unwrap();
+            by_world.insert(v["world"].as_u64().unwrap(), v);
+        }
+    }
+    let (mut checked, mut mism) = (0u64, vec![]);
+    for (wi, w) in worlds.iter().enumerate() {
+        let Some(p) = by_world.get(&(wi as u64 + 1)) else { mism.push(json!({"world": wi + 1, "what": "no prediction"})); continue; };
+        let pred = p["pred"].as_array().unwrap();
+        for (k, ev) in w.iter().skip(1).enumerate() {
+            let vb = ev["vb"].as_array().unwrap();
+            let got = [f32::from_bits(vb[0].as_i64().unwrap() as u32) as f64, f32::from_bits(vb[1].as_i64().unwrap() as u32) as f64, vb[2].as_i64().unwrap() as f64, vb[3].as_i64().unwrap() as f64];
+            for pi in 0..4 {
+                checked += 1;
+                if !agrees(&pred[k][pi], got[pi], pi >= 2, f64::NAN) && mism.len() < 8 {
+                    mism.push(json!({"world": wi + 1, "step": k + 1, "prop": pi + 1, "got": got[pi], "expected": pred[k][pi], "event": ev, "cfg": w[0]}));
+                }
+            }
+        }
+    }
+    json!({"worlds": worlds.len(), "values_checked": checked, "mismatches": mism.len(), "first": mism})
+}
